@@ -17,6 +17,10 @@
 // data names, a dependency inside a module set) through every entry point and backend: since
 // the fix of bufcas.NewFileNode a module file with such a path has NO digest (an error from
 // every entry point), a non-module file with such a path is ignored.
+// Section H (history.go): histories — disturbed computations (reads that fail after k bytes,
+// panicking readers, cancelled contexts) followed by healthy ones, sequentially on one P,
+// unpinned and concurrently; every healthy answer against the independent recomputation and
+// against a fresh process.
 //
 // The Lean model receives the hash as a table computed here with golang.org/x/crypto/sha3.
 // The oracle (implementation only) recomputes every b5 digest from the published
@@ -456,6 +460,11 @@ func depKeys(depStrings []string) []bufmodule.ModuleKey {
 // with the given digests).  expected is the digest pinned in the module key; when it differs
 // from what buf computes the DigestMismatchError carries buf's value, which is returned.
 func remoteB5(bucket storage.ReadBucket, depStrings []string, expected string, o modOpts) (res string, err error) {
+	return remoteB5Ctx(ctx, bucket, depStrings, expected, o)
+}
+
+// remoteB5Ctx is remoteB5 with the context the module set is built with (Section H cancels it).
+func remoteB5Ctx(ctx context.Context, bucket storage.ReadBucket, depStrings []string, expected string, o modOpts) (res string, err error) {
 	defer func() {
 		if p := recover(); p != nil {
 			err = fmt.Errorf("panic: %v", p)
@@ -502,6 +511,10 @@ func remoteB5(bucket storage.ReadBucket, depStrings []string, expected string, o
 // localDigest computes Module.Digest of a local module over bucket (b5 requires parseable
 // .proto files because ModuleDeps scans imports).
 func localDigest(bucket storage.ReadBucket, o modOpts, dt bufmodule.DigestType, yaml, lock bufmodule.ObjectData) (res string, err error) {
+	return localDigestCtx(ctx, bucket, o, dt, yaml, lock)
+}
+
+func localDigestCtx(ctx context.Context, bucket storage.ReadBucket, o modOpts, dt bufmodule.DigestType, yaml, lock bufmodule.ObjectData) (res string, err error) {
 	defer func() {
 		if p := recover(); p != nil {
 			err = fmt.Errorf("panic: %v", p)
@@ -809,6 +822,13 @@ func mutateText0(r *hx.Rand, s string) string {
 
 func b5Line(files []file, depStrings []string) (string, *table) {
 	t := newTable()
+	addB5Preimages(t, files, depStrings)
+	return "b5\t" + t.enc() + "\t" + encBucket(files) + "\t" + encList(depStrings), t
+}
+
+// addB5Preimages adds to t every byte string the published b5 construction hashes for
+// (files, deps).
+func addB5Preimages(t *table, files []file, depStrings []string) {
 	for _, f := range files {
 		t.add(f.Content)
 	}
@@ -823,7 +843,6 @@ func b5Line(files []file, depStrings []string) (string, *table) {
 	if ok {
 		t.add([]byte(oracleB5Preimage(mt, depStrings)))
 	}
-	return "b5\t" + t.enc() + "\t" + encBucket(files) + "\t" + encList(depStrings), t
 }
 
 func hasNewlinePath(files []file) bool {
@@ -1832,12 +1851,20 @@ func main() {
 		genConsts()
 		return
 	}
+	if len(os.Args) > 1 && os.Args[1] == "digest-only" {
+		// Section H: this binary re-executed as a fresh process that only computes digests
+		digestOnlyMain(os.Args[2:])
+		return
+	}
 	run := hx.Start("C08")
 	r := hx.NewRand(run.Seed)
+	// C08_SECTIONS=H (any subset of WMDGNH) runs only those sections; case indices do not change
+	secs := os.Getenv("C08_SECTIONS")
+	on := func(c byte) bool { return secs == "" || strings.IndexByte(secs, c) >= 0 }
 	tmp := filepath.Join(run.OutDir, "disk")
 	must(os.MkdirAll(tmp, 0o755))
 	defer os.RemoveAll(tmp)
-	if run.Only < 0 || run.Only == 0 {
+	if on('W') && (run.Only < 0 || run.Only == 0) {
 		witnessCases(run, tmp)
 	}
 	idx := 1
@@ -1846,7 +1873,7 @@ func main() {
 	mr := r.Fork(1)
 	for i := 0; i < nM; i++ {
 		cr := mr.Fork(uint64(i))
-		if run.Only < 0 || run.Only == idx {
+		if on('M') && (run.Only < 0 || run.Only == idx) {
 			specs, kind := genNodeSpecs(cr)
 			manifestCase(run, idx, specs, kind)
 			text := validManifestText(cr)
@@ -1863,13 +1890,15 @@ func main() {
 		idx++
 	}
 	// Section D
-	smallScope(run, r.Fork(5), tmp, idx)
+	if on('D') {
+		smallScope(run, r.Fork(5), tmp, idx)
+	}
 	idx += 64
 	nD := run.N(2000, 25000)
 	dr := r.Fork(2)
 	for i := 0; i < nD; i++ {
 		cr := dr.Fork(uint64(i))
-		if run.Only < 0 || run.Only == idx {
+		if on('D') && (run.Only < 0 || run.Only == idx) {
 			parseable := cr.Chance(1, 3)
 			files := genFileSet(cr, parseable)
 			var deps []string
@@ -1897,7 +1926,7 @@ func main() {
 	nG := run.N(800, 8000)
 	gr := r.Fork(3)
 	for i := 0; i < nG; i++ {
-		if run.Only < 0 || run.Only == idx {
+		if on('G') && (run.Only < 0 || run.Only == idx) {
 			msetCase(run, idx, gr.Fork(uint64(i)), nil)
 		}
 		idx++
@@ -1908,7 +1937,7 @@ func main() {
 	nr := r.Fork(4)
 	for i := 0; i < nN; i++ {
 		cr := nr.Fork(uint64(i))
-		if run.Only < 0 || run.Only == idx {
+		if on('N') && (run.Only < 0 || run.Only == idx) {
 			parseable := cr.Chance(1, 3)
 			base := genFileSet(cr, parseable)
 			kind := lfKinds[i%len(lfKinds)]
@@ -1932,6 +1961,10 @@ func main() {
 			must(os.MkdirAll(tmp, 0o755))
 		}
 		idx++
+	}
+	// Section H (history independence; own generator stream r.Fork(6), after every other section)
+	if on('H') {
+		idx = sectionH(run, r.Fork(6), idx)
 	}
 	run.Finish()
 }
